@@ -1106,6 +1106,17 @@ func (x *Exec) spawnCheck(st *State, g *ssa.Go) {
 			t := env.evalBool(cl.Expr)
 			x.obligeClause("assert", site+"/"+clauseLabel(cl), st.reach, t, cl)
 		}
+		for _, ef := range x.con.SiteSets[site] {
+			env := x.newEnv(st, x.oldOf(st))
+			env.atBlock = g.Block()
+			env.bindCallArgs(tgt, recv, args)
+			v := env.eval(ef.Expr)
+			comp := env.compByName("ghost:" + ef.Name)
+			if comp == "" {
+				panic(contractErr("set: unknown ghost " + ef.Name))
+			}
+			x.vc.set(st, comp, v.t)
+		}
 	}
 	if tgt.con != nil {
 		for _, cl := range tgt.con.Req {
